@@ -52,6 +52,9 @@ def scenarios(nmax, bmax, wmax, faults=True):
     for entry, n, b, w in cs.configs(nmax, bmax, wmax):
         for stop in stop_plans(n):
             out.append(cs.make(entry, n, b, w, stop=stop))
+        if faults and entry in ('stp', 'lpm', 'pf1', 'parmap') and n in (0, 2):
+            for kind in ('value', 'base'):
+                out.append(cs.make(entry, n, b, w, faults={'iter': kind}))
         if faults and n >= 1:
             for j in sorted({0, n - 1}):
                 out.append(cs.make(entry, n, b, w, faults={'src': {str(j): 'value'}}))
